@@ -283,6 +283,23 @@ def run(ctx):
                 if r["rc"] != 0 or lines != ["VA-VB", "ta:ca", "tb:cb"] + (["tg", "tgg"] if j.get("gimport") else []):
                     res.violations.append({"class": None, "what": "variables / tasks of the global and project files are not all usable from the project",
                                            "case": case, "observed": {"rc": r["rc"], "out": lines, "err": (r.get("err") or "")[-400:]}})
+    # ---- files of different formats in one import graph, with names YAML reads as integers ------------------------------
+    if not ctx.replay_cases:
+        inc = "tasks:\n  2024:\n    command: [\"echo y2024 >> \\\"$PROJ/out\\\"\"]\n  extra:\n    command: [\"echo extra >> \\\"$PROJ/out\\\"\"]\n    env: {404: nf}\n"
+        main = {"import": ["inc.yaml"], "tasks": {"main": {"command": ['echo main >> "$PROJ/out"']}}}
+        mj = []
+        for fn, text in (("cfg.json", json.dumps(main)), ("cfg.yaml", json.dumps(main)), ("cfg.toml", 'import = ["inc.yaml"]\n[tasks.main]\ncommand = ["echo main >> \\"$PROJ/out\\""]\n')):
+            mj.append({"id": len(mj), "files": {fn: text, "inc.yaml": inc}, "argv": ["-c", fn, "--raw", "main", "2024", "extra"], "keep": ["out"], "fn": fn})
+        mout = clilib.run_cli(os.path.join(ctx.workdir, "mixed"), mj, timeout=20)
+        for j in mj:
+            r = mout[j["id"]]
+            res.evaluations += 1
+            res.count("mixed-formats")
+            res.nontrivial_keys.add("mixed" + j["fn"])
+            lines = (r["files"].get("out") or "").split()
+            if r["timeout"] or clilib.crashed(r) or r["rc"] != 0 or lines != ["main", "y2024", "extra"]:
+                res.violations.append({"class": None, "what": "a %s file importing a YAML file whose task names YAML reads as integers: not every definition of the imported file is available" % j["fn"].split(".")[1],
+                                       "case": {"kind": "mixed-formats", "files": j["files"], "argv": j["argv"]}, "observed": {"rc": r["rc"], "out": lines, "err": (r.get("err") or "")[-400:]}})
     res.exhaustive = False
     res.samples = [cases[min(300, len(cases) - 1)], cases[-1]] if cases else []
     return res
